@@ -17,7 +17,7 @@ PROP = {
          "thorough": {"runs": 400000, "max_len": 1500, "workers": 4, "unit_timeout": 60}},
     ],
     "assumptions": [
-        "run() is only called with event ids >= 1 (id 0 is documented as 'any event, only for addRoute/addEvent')",
+        "run() is called with event ids 0..5; id 0 is delivered like any other event (unmodified code): it matches no specific handler/route, only the any-event handler and any-event routes, and goes to the active sub-machine first",
         "state ids are 0..5, -5 and INT_MIN (newState()/addRoute()/setInitState() of the unmodified code accept every int; -1 is the documented invalid id and never declared); handlers return -1 (decline: routes are searched), an id that is a state at that moment or 0 (transition), or any other id -- positive, or negative such as -2, -5, -7, INT_MIN -- that is not a state (then run() must return false, do nothing and leave the machine fully usable); nested machines can always start (valid initial state); a sub-machine object is attached to at most one state at a time",
         "re-definition follows the unmodified code where it is unambiguous: addEvent() again for a (state, event) replaces the handler (last one counts, specific and any-event alike), newState() of an existing id is refused and changes nothing, setInitState() again: last call counts, setSubStateMachine() on a state that has one replaces it, duplicate routes are both kept (first match wins)",
         "the call sequence is applied to the top machine only; re-entrant calls are made by a machine's callbacks on that same machine",
